@@ -80,14 +80,63 @@ CLAIMED = {
             "whole-proxy engine, not of this component.",
             "Coq proof (refinement bufio-reader model -> abstract reader, fuel shown sufficient) + exhaustive-cuts differential run"),
     "C08": ("PARTIAL. Theorems: decode level — C08_parse_no_panic, C08_parse_terminates (every loop is structural / fuel never exhausted), C08_alloc_bounded (bytes requested from make <= 4*received "
-            "+ 64 KiB), C08_parse_no_panic_udp, C08_legacy_refuted (absurd Content-Length -> Panic / 1 GiB requested in the pre-fix model); whole pipeline — see proofs/C08.v (no guarded "
-            "Go operation of decode/learn/stamp/route/pin/relay can go out of bounds; undecodable input is discarded with the state unchanged). Correspondence: hostile histories through the "
+            "+ 64 KiB), C08_parse_no_panic_udp, C08_legacy_refuted (absurd Content-Length -> Panic / 1 GiB requested in the pre-fix model); whole pipeline — C08_no_panic(_gen) and C08_never_err (for EVERY "
+            "byte string, event, configuration and state proxy_step returns Ok: no guarded Go operation of decode/learn/stamp/route/pin/relay can go out of bounds), C08_discard_udp / "
+            "C08_discard_tcp / C08_garbage_is_close / C08_discard_tcp_after (undecodable input: nothing sent, state unchanged, TCP connection closed), C08_serves_after(_tcp) (the traffic that "
+            "follows is served as if the bad input had not occurred), C08_output_bounded, C08_legacy_refuted (Via host '[' panicked before the fix). Correspondence: hostile histories through the "
             "real proxy over UDP and TCP (mutations, hostile field values, thousands of headers/parameters), each ending with a request that must still be served; process death, a barrier "
-            "that never returns and > 768 MiB obtained from the OS are violations; plus the in-package hostile stream against the bufio/UDP-buffer model.",
+            "that never returns and > 300 MiB obtained from the OS during one scenario are violations; plus the in-package hostile stream against the bufio/UDP-buffer model.",
             "Real memory use (RSS), goroutine starvation and stalls inside blocking I/O (dial to a black-holed next hop) are runtime behaviour the model cannot exhibit; fmt/regexp/net/bufio "
             "internals are trusted not to panic; the memory ceiling and liveness barrier are supporting evidence.",
             "Coq proof (Panic-carrying result monad: every slice/index/make of the modelled pipeline guarded for all inputs) + hostile-input differential run"),
 }
+
+PROXY_NOTE = ("Whole-proxy engine: the model Proxy.proxy_step (one state per listen entry, shared learned table, transport table, pins, rotation) is played against the REAL proxy "
+              "started through startProxy from YAML on loopback sockets, one 127.X.Y.0/24 block per scenario, a barrier request after every event; the property's executable judge "
+              "(SpecProxy.v / SpecProxy2.v, its own minimal SIP reader) is applied to what the real proxy emitted. Theorems are about the model at the level of decoded messages; the "
+              "judge-level link is proved for C01 (C01_judge_bridge_*) and exercised by the runs for the others. Proxy-generated branches and OS-chosen ports are canonicalised. ")
+CLAIMED.update({
+    "C01": ("Theorems for every message, configuration, state and every relaying path (backend, Route, static route, response by Via; UDP and TCP): C01_relay_preserves (every output is "
+            "write_message of a message with the same non-routing view: start line, every (name, value) pair other than Via/Route/Record-Route/Content-Length in order and multiplicity, body), "
+            "C01_proxy_step_udp/tcp, C01_stable_on_c14_domain + C01_stable_necessary (the re-encode-stability hypothesis holds on the grammar domain and is visibly necessary: CSeq '0001 INVITE'), "
+            "C01_single_content_length(_read) (exactly one Content-Length = body length, also through the judge's own line reader), C01_judge_bridge_partial/request/response and C01_judge_relay "
+            "(the executable judge accepts the model's output), C01_legacy_refuted.",
+            PROXY_NOTE + "Header values are compared modulo surrounding blanks; the generators avoid values that begin/end with a Unicode white-space rune (Go's TrimSpace strips those too; the model trims ASCII only).",
+            "Coq proof (frame lemmas for every state-passing message operation, composed along the pipeline) + whole-proxy differential run with independent judge"),
+    "C02": ("Theorems for every response, state, configuration: C02_response_general / C02_response_hop (both layouts: comma list and repeated lines, compact/odd-case names: exactly one send to "
+            "received-or-host, numeric-rport-or-sent-by-port, over the entry's transport, with the remaining Via entries intact), C02_single_via_dropped, C02_undecodable_dropped, C02_dest_unsupported, "
+            "C02_dest_udp, C02_dest_tcp + C02_tcp_slot_reachable (a TCP Via never leaves as a datagram in any reachable state), C02_independent_of_pins, C02_roundtrip(_return) (the response to a "
+            "relayed request returns to the true source / its sent-by with the Via stack that hop sent), C02_process_response; C02_legacy_refuted witness in proofs/C02.v.",
+            PROXY_NOTE + "C02_dest_udp carries a state condition (udp_slot_ok): after a failed oversized datagram FailOverClientTransport forgets its UDP primary for good (model and Go code alike; recorded as an observation).",
+            "Coq proof (Via-view of a message, pop/hop/send characterisations, reachable-state invariant) + whole-proxy differential run with independent judge"),
+    "C03": ("Theorems for every message, state, configuration: C03_at_most_one(_udp/_tcp) (no event ever sends to two destinations), C03_choice (the hop is exactly choose_hop written from the "
+            "property text: first remaining SIP Route entry after the own one, else static route of the To host, else a backend if the Request-URI matches, else nothing), C03_choice_outputs, "
+            "C03_backend_member(_event), C03_unsupported_transport_dropped/_event, C03_non_sip_route (the case the quantifier excludes, stated), C03_b1_legacy_refuted.",
+            PROXY_NOTE + "Service-name patterns within the regular-expression subset of Rx.v; which backend a pin selects is C04, rotation evenness C05.",
+            "Coq proof (request pipeline decomposition, route view over all Route headers) + decision-table differential run with independent judge"),
+    "C06": ("Theorems for every request/header layout/position: C06_via_pushed + C06_via_position (exactly one Via naming the listener's transport/address/port with the event's branch, "
+            "immediately above the first existing Via header, all others beneath in order), C06_rr_policy/_position/_flat (own <sip:addr:port;lr> ahead of all Record-Route entries iff one is "
+            "present or must-record-route), C06_decorate_learned / C06_not_learned_untouched / C06_backend_decorates / C06_relayed_request (end to end over process_message), C06_branch, "
+            "C06_branch_of_inj/_cookie/C06_branches_distinct, C06_learn_lookup, C06_learning(_response).",
+            PROXY_NOTE + "Freshness of the REAL branches rests on uuid.NewRandom (48 random bits): the driver keeps the set of every branch seen in a run and reports a duplicate; that is a measurement, not a theorem.",
+            "Coq proof (insertion-position lemmas, flattened Via/Record-Route views) + whole-proxy differential run with independent judge"),
+    "C07": ("Theorems: C07_stamp + C07_stamp_params + C07_kv_set_char (received = source IP overriding a supplied one, rport = source port iff an rport parameter was present, every other "
+            "parameter, entry and header untouched), C07_pipeline (stamping iff received-support and request), C07_wiring (every listener kind gets !no-received from the YAML) / C07_wiring_legacy "
+            "(the pre-fix argument order gives the never-set defRoute), C07_wired_reachable (accepted AND dialled connections in every reachable state), C07_step_udp / C07_step_tcp.",
+            PROXY_NOTE + "The wiring is exercised for real: YAML -> loadConfigFromReader -> startProxy; requests arrive over UDP, accepted TCP connections and connections the proxy dialled itself.",
+            "Coq proof (parameter-list characterisation of SetParam, wiring function, reachable-state invariant) + whole-proxy differential run with independent judge"),
+    "C13": ("Theorems for every Route set in any layout: C13_own_popped_iff (the top entry is consumed iff it designates the receiving listener: same port and same or same-resolving host), "
+            "C13_next_hop_popped_iff_not_keep, C13_route / C13_route_decoded (the relayed Route entries are exactly skipn (own?1:0 + (next hop stripped?1:0)) of the received ones, near misses "
+            "included as the own = false branch), C13_route_view_grammar + C13_route_header_text (link to bytes through the C14 theorems).",
+            PROXY_NOTE,
+            "Coq proof (route view flattened over all Route headers, invariance under in-place decoding) + whole-proxy differential run with independent judge"),
+    "C17": ("Theorems: C17_same_header_equiv/_refl/_sym/_trans (same_header = equality of the expanded lower-case names, for ALL names), commutation of every look-up/update/insert with "
+            "respelling, C17_respell_invariance(_fun) and C17_respell_udp (the whole per-message pipeline on a respelled message: same state, same destinations, outputs that are "
+            "serialisations of respelled messages, exactly one Content-Length), C17_relayout_invariance / C17_relayout_udp / C17_written_relaid / C17_pop_via_flat / C17_route_layout "
+            "(splitting or joining Via / Route lists), C17_size_counterexample (the one condition: both serialisations on the same side of the 65507-byte datagram limit).",
+            PROXY_NOTE + "Metamorphic run: every scenario is played twice through the real proxy, the second time respelled and re-laid-out, and compared pairwise.",
+            "Coq proof (simulation up to respelling / re-layout of every message operation, composed along the pipeline) + metamorphic differential run"),
+})
 
 
 def check(pid):
